@@ -105,6 +105,29 @@ def transfer(ctx, sender, receiver, data, write_sizes, read_cap):
             sender.sock.shutdown(2)
         except OSError:
             pass
+    # the sender is done: the reader either finishes or ends up sleeping in recv with nothing in flight, which
+    # means bytes were lost - decided logically (thread state), not by a wall-clock deadline
+    idle = 0
+    import time as _t
+    t0 = _t.time()
+    while t.is_alive() and okk:
+        t.join(0.02)
+        if not t.is_alive():
+            break
+        if receiver.tid and T.blocked_in_recv(receiver.tid):
+            idle += 1
+            if idle >= 10:
+                rx['starved'] = True
+                break
+        else:
+            idle = 0
+        if _t.time() - t0 > 120:
+            break
+    if t.is_alive():
+        try:
+            sender.sock.shutdown(2)
+        except OSError:
+            pass
     t.join(60)
     hung = t.is_alive()
     if hung:
